@@ -205,3 +205,101 @@ def run(d):
             return 0 if exact else 1
     print("REPLAY: no native replay recorded for this file (obligation-level evidence only)")
     return 0
+
+
+def _frac(model, prefix, *args):
+    d = _decl(model, prefix)
+    if d is None:
+        return None
+    v = model.eval(d(*[z3.IntVal(a) for a in args]), model_completion=True)
+    if z3.is_int_value(v):
+        return Fraction(v.as_long())
+    if z3.is_rational_value(v):
+        return Fraction(v.numerator_as_long(), v.denominator_as_long())
+    return None
+
+
+def _range_values(model, prefix, limit=60):
+    """the finitely many values a counter-model gives to a unary Int function (entries and else-branch constants)"""
+    d = _decl(model, prefix)
+    out = []
+    if d is None:
+        return out
+    fi = model[d]
+    try:
+        for k in range(fi.num_entries()):
+            v = fi.entry(k).value()
+            if z3.is_int_value(v):
+                out.append(v.as_long())
+        ev = fi.else_value()
+        if z3.is_int_value(ev):
+            out.append(ev.as_long())
+        else:                                        # an if-then-else tree: collect its integer leaves
+            todo = [ev]
+            while todo and len(out) < limit:
+                t = todo.pop()
+                if z3.is_int_value(t):
+                    out.append(t.as_long())
+                elif z3.is_app(t):
+                    todo += list(t.children())
+    except Exception:
+        pass
+    return list(dict.fromkeys(out))[:limit]
+
+
+def replay_flow_conservation(o, model):
+    """two-edge graph p -> v -> q carrying the in- and out-sums the counter-model gives to a node: the real check_flow_conservation must
+    answer True exactly when the two sums are equal (exact rational comparison).  Tries the values scaled to integers and as floats."""
+    import networkx as nx
+    from flowpaths.utils import graphutils
+    tried = []
+    for v in _range_values(model, "node_at"):
+        od, idg = mfun(model, "out_degree", v, default=0), mfun(model, "in_degree", v, default=0)
+        if not od or not idg:
+            continue
+        a, b = _frac(model, "out_prefix_sum", v, int(od)), _frac(model, "in_prefix_sum", v, int(idg))
+        if a is None or b is None:
+            continue
+        den = a.denominator * b.denominator // math.gcd(a.denominator, b.denominator)
+        for mode, conv in (("integers", lambda x: int(x * den)), ("floats", float)):
+            G = nx.DiGraph()
+            G.add_edge("p", "v", flow=conv(b))
+            G.add_edge("v", "q", flow=conv(a))
+            want = Fraction(G["p"]["v"]["flow"]) == Fraction(G["v"]["q"]["flow"])
+            got = graphutils.check_flow_conservation(G, "flow")
+            rec = dict(mode=mode, edges=[(x, y, d.get("flow")) for x, y, d in G.edges(data=True)], expected=want, observed=got)
+            if bool(got) != want:
+                return dict(ok=True, function="graphutils.check_flow_conservation", **rec)
+            tried.append(rec)
+    return dict(ok=False, function="graphutils.check_flow_conservation", tried=tried[:6])
+
+
+def replay_expanded_additional(which):
+    """native replay for NodeExpandedDiGraph.get_expanded_additional_starts/ends: node names from the counter-model when it gives printable
+    ones (else 'x', 'y'); a node-weighted two-node graph is expanded by the real class and the real method is asked for the expansion."""
+    def run(o, model):
+        import networkx as nx
+        from flowpaths.nodeexpandeddigraph import NodeExpandedDiGraph
+        names = []
+        n = mconst(model, "additional.len", 0) or 0
+        d = _decl(model, "additional.at.0")
+        for j in range(min(int(n), 3)):
+            try:
+                v = model.eval(d(z3.IntVal(j)), model_completion=True).as_string() if d is not None else None
+            except Exception:
+                v = None
+            if v and v.isprintable() and "\\" not in v and v not in names:
+                names.append(v)
+        names = names or ["x", "y"]
+        G = nx.DiGraph()
+        prev = None
+        for i, nm in enumerate(names + ["zz_tail"]):
+            G.add_node(nm, flow=i + 1)
+            if prev is not None:
+                G.add_edge(prev, nm)
+            prev = nm
+        ne = NodeExpandedDiGraph(G, node_flow_attr="flow")
+        got = getattr(ne, "get_expanded_additional_%s" % which)(list(names))
+        want = [str(nm) + (".0" if which == "starts" else ".1") for nm in names]
+        return dict(ok=list(got) != want, function="NodeExpandedDiGraph.get_expanded_additional_%s" % which, input=names, expected=want, observed=list(got))
+    return run
